@@ -373,6 +373,16 @@ TARGETED = {
     "call_of_or_then_and_chain": "def f():\n    y = g(v(1) or v(2)) and v(3) and v(4)\n    return c(5, y)\n",
     "nested_left_deep": "def f():\n    if ((v(1) and v(2)) or v(3)) and v(4):\n        return c(5)\n    return c(6)\n",
     "not_of_andor": "def f():\n    if not (v(1) and v(2)) or v(3):\n        return c(5)\n    return c(6)\n",
+    # the same expression / statement / test twice (anything keyed by source text or ast.dump would conflate them)
+    "dup_or_in_binop": "def f():\n    return (v(1) or v(2)) + (v(1) or v(2))\n",
+    "dup_and_in_call": "def f():\n    return g(v(1) and v(2), v(1) and v(2))\n",
+    "dup_andor_stmts": "def f():\n    y = v(1) and v(2)\n    z = v(1) and v(2)\n    return c(5, y, z)\n",
+    "dup_stmt_arms": "def f():\n    if t(1):\n        c(5)\n    else:\n        c(5)\n    return c(6)\n",
+    "dup_tests_seq": "def f():\n    if t(1):\n        c(2)\n    if t(1):\n        c(2)\n    return c(3)\n",
+    "dup_loops": "def f():\n    while t(1):\n        c(2)\n    while t(1):\n        c(2)\n    return c(3)\n",
+    "dup_nested_for": "def f():\n    for x in it(1):\n        for x in it(1):\n            c(2, x)\n        c(3, x)\n    return c(4)\n",
+    "dup_ifexp": "def f():\n    y = c(0, c(1) if t(2) else c(3), c(1) if t(2) else c(3))\n    return c(4, y)\n",
+    "dup_compare_chain": "def f():\n    if v(1) < v(2) < v(1):\n        return c(3)\n    return c(4)\n",
     "return_in_loop_else": "def f():\n    for x in it(1):\n        c(2)\n    else:\n        return c(3)\n    return c(4)\n",
     "continue_in_while_else_if": "def f():\n    while t(1):\n        if t(2):\n            continue\n        elif t(3):\n            break\n        c(4)\n    else:\n        c(5)\n    return c(6)\n",
 }
@@ -600,4 +610,89 @@ def big_graphs(tier: str = "quick"):
             if c is not None and is_closed(c) and c not in seen:
                 seen.add(c)
                 out.append(c)
+    return out
+
+
+# ---------------------------------------------------------------------------------------
+# ARMS: one branch with two or three arms, every combination of arm kinds, optionally inside a loop.  Two arms that each end
+# in a loop, next to an arm that returns early, give tails with several headers entered from several loop regions - four
+# compound statements, beyond S(3).
+
+ARM_KINDS = ("plain", "while", "for", "ret", "ifret", "while_break")
+ARM_KINDS_IN_LOOP = ARM_KINDS + ("brk", "cont")
+
+
+def _arm(kind: str, r: "_Render", ind: int):
+    k = r.nk
+    if kind == "plain":
+        r.emit(ind, f"c({k()})")
+    elif kind == "while":
+        r.emit(ind, f"while t({k()}):")
+        r.emit(ind + 1, f"c({k()})")
+    elif kind == "for":
+        n = k()
+        r.emit(ind, f"for x{n} in it({n}):")
+        r.emit(ind + 1, f"c({k()}, x{n})")
+    elif kind == "ret":
+        r.emit(ind, f"return c({k()})")
+    elif kind == "ifret":
+        r.emit(ind, f"if t({k()}):")
+        r.emit(ind + 1, f"return c({k()})")
+    elif kind == "while_break":
+        r.emit(ind, f"while t({k()}):")
+        r.emit(ind + 1, f"if t({k()}):")
+        r.emit(ind + 2, "break")
+        r.emit(ind + 1, f"c({k()})")
+    elif kind == "brk":
+        r.emit(ind, f"c({k()})")
+        r.emit(ind, "break")
+    elif kind == "cont":
+        r.emit(ind, f"c({k()})")
+        r.emit(ind, "continue")
+
+
+def arm_programs(tier: str = "quick") -> Iterator[Tuple[str, str]]:
+    import itertools as _it
+    for wrap in ("none", "while", "for"):
+        kinds = ARM_KINDS if wrap == "none" else ARM_KINDS_IN_LOOP
+        for narms in (2, 3):
+            for combo in _it.product(kinds, repeat=narms):
+                if all(c in ("plain",) for c in combo):
+                    continue
+                r = _Render("marked")
+                r.emit(0, "def f():")
+                ind = 1
+                r.emit(ind, f"c({r.nk()})")
+                if wrap == "while":
+                    r.emit(ind, f"while t({r.nk()}):")
+                    ind += 1
+                elif wrap == "for":
+                    n = r.nk()
+                    r.emit(ind, f"for w{n} in it({n}):")
+                    ind += 1
+                for i, kind in enumerate(combo):
+                    if i == 0:
+                        r.emit(ind, f"if t({r.nk()}):")
+                    elif i < narms - 1:
+                        r.emit(ind, f"elif t({r.nk()}):")
+                    else:
+                        r.emit(ind, "else:")
+                    _arm(kind, r, ind + 1)
+                r.emit(ind, f"c({r.nk()})")
+                r.emit(1, f"return c({r.nk()})")
+                yield f"ARMS/{wrap}/{'-'.join(combo)}", "\n".join(r.lines) + "\n"
+
+
+def arm_cfgs() -> list:
+    """Distinct closed CFGs of the source front end for the ARMS programs."""
+    from .families import canonical, is_closed
+    seen, out = set(), []
+    for label, src in arm_programs():
+        g = source_cfg(src)
+        if g is None or any(t not in g for r in g.values() for t in r):
+            continue
+        c = canonical(g, "0" if "0" in g else None)
+        if c is not None and is_closed(c) and c not in seen:
+            seen.add(c)
+            out.append(c)
     return out
